@@ -529,6 +529,12 @@ func (st *c03State) genFlow(T *verifsim.Tape, id int) *c03Flow {
 			f.script = append(f.script, c03Step{ack: true, pad: pad(), reverse: inbound && T.Chance(1, 3)})
 		}
 		switch T.Pick(2, 2, 1, 2) {
+		case 0: // a new SYN on the same tuple while the old connection was never seen closing
+			// (peer restarted, or a handshake retry): tracking restarts with this SYN's decision.
+			// Chosen by the flow's number, not by a new draw, so that recorded tapes keep their meaning.
+			if !inbound && f.id%2 == 1 {
+				f.script = append(f.script, c03Step{syn: true}, c03Step{ack: true, pad: 64}, c03Step{ack: true, pad: 0})
+			}
 		case 1:
 			f.script = append(f.script, c03Step{ack: true, fin: true}, c03Step{ack: true, pad: pad()})
 		case 2:
@@ -847,6 +853,14 @@ func (st *c03State) sendNext(f *c03Flow) {
 		// WAN-originated connection: the inbound frame starts tracking (origin WAN) unless the tuple
 		// is already tracked as locally originated; replies of a WAN-originated one pass untouched
 		if stp.reverse {
+			if f.tracked && f.tainted && !f.originIn && st.faulty {
+				// the datapath could not record this flow as locally originated (injected map
+				// fault), so for it this inbound frame opens the flow from the WAN side
+				if ex, wan := st.stateOrigin(f); ex && wan {
+					s.Probe("kern.fault-resync-wan-origin")
+					f.tracked, f.closing, f.originIn, f.tainted = true, false, true, false
+				}
+			}
 			if !f.tracked {
 				if !f.p.tcp || (stp.syn && !stp.ack) {
 					f.tracked, f.closing, f.originIn, f.tainted = true, false, true, false
@@ -865,6 +879,10 @@ func (st *c03State) sendNext(f *c03Flow) {
 		}
 		if f.tracked && f.originIn {
 			if f.tainted {
+				// the inbound direction could not be recorded (injected map fault): the datapath may
+				// have started tracking this very frame as a locally originated flow, and that entry
+				// lives as long as frames keep arriving - the statement stays silent until then
+				f.last = st.now
 				return
 			}
 			if st.faulty && !st.hasState(f, true) {
@@ -908,9 +926,13 @@ func (st *c03State) sendNext(f *c03Flow) {
 		}
 		d = f.decision
 	default:
-		if f.tracked && f.tainted && st.hasState(f, false) {
-			// the datapath managed to store the flow this time: tracking restarts with this datagram
-			f.tracked = false
+		if f.tracked && f.tainted {
+			if ex, wan := st.stateOrigin(f); ex && !wan {
+				// the datapath managed to store the flow this time: tracking restarts with this datagram
+				f.tracked = false
+			} else if ex && wan {
+				return // recorded from an inbound frame meanwhile: the statement stays silent for this tainted flow
+			}
 		}
 		if !f.tracked {
 			f.tracked, f.tainted, f.originIn = true, false, false
@@ -1041,6 +1063,18 @@ func (st *c03State) sendNext(f *c03Flow) {
 }
 
 // hasState: does the datapath hold a conn_state entry for the flow (reply=true: under the reply tuple's key)?
+// stateOrigin reads the flow's conn_state entry: whether it exists and whether the datapath
+// recorded it as opened from the WAN side (struct conn_state.is_wan_ingress_direction).
+func (st *c03State) stateOrigin(f *c03Flow) (exists, wanOrigin bool) {
+	src, dst, proto := st.tuple(f)
+	key := bpfTuplesKeyFromAddrPorts(src, dst, proto)
+	v, ok, err := st.w.c.MapGet(st.w.c.Maps["conn_state_map"], ksNative(key))
+	if st.w.simErr(err) || !ok || len(v) == 0 {
+		return false, false
+	}
+	return true, v[0] != 0
+}
+
 func (st *c03State) hasState(f *c03Flow, _ bool) bool {
 	src, dst, proto := st.tuple(f)
 	key := bpfTuplesKeyFromAddrPorts(src, dst, proto)
@@ -1102,6 +1136,14 @@ func (st *c03State) checkHandover(f *c03Flow, d refDecision, expOut uint8, res *
 		}
 	}
 	if got.Outbound != expOut || got.Mark != d.mark || got.Must != mustB || got.Dscp != f.p.dscp || got.Mac != wantMac || got.Pname != wantPname || got.Pid != wantPid {
+		if f.shape == "" && f.kind == 0 && !f.p.tcp && f.p.dport == 53 && res.UpdFailFired > 0 {
+			// same recorded defect shape as above, second face: the failed (and ignored)
+			// routing_handoff_map update leaves the record of an EARLIER datagram of this tuple
+			// in place, and the control plane recovers that stale decision
+			s.Failf("handover-mismatch/lan-dns-handoff-update-ignored", "handover-mismatch/lan-dns-handoff-update-ignored: the routing_handoff_map update for this datagram failed (injected) and was ignored; control plane recovered the stale record (outbound=%d mark=%#x must=%d) of an earlier datagram, the decision was (outbound=%d mark=%#x must=%d)\n%s",
+				got.Outbound, got.Mark, got.Must, expOut, d.mark, mustB, desc())
+			return
+		}
 		s.Failf("handover-mismatch"+f.shape, "handover-mismatch"+f.shape+": control plane recovered (outbound=%d mark=%#x must=%d dscp=%d mac=%x pname=%q pid=%d), the decision was (outbound=%d mark=%#x must=%d dscp=%d mac=%x pname=%q pid=%d)\n%s",
 			got.Outbound, got.Mark, got.Must, got.Dscp, got.Mac, string(bytes.TrimRight(got.Pname[:], "\x00")), got.Pid,
 			expOut, d.mark, mustB, f.p.dscp, wantMac, string(bytes.TrimRight(wantPname[:], "\x00")), wantPid, desc())
